@@ -433,6 +433,10 @@ pub fn number_sweep(r: &mut Rng, thorough: bool, stats: &mut Stats) {
         let mut diff = String::new();
         for v in vals {
             n += 1;
+            if n % (1 << 20) == 0 {
+                // a long sweep makes progress without emitting events: tell the watchdog
+                crate::util::PROGRESS.fetch_add(1, std::sync::atomic::Ordering::SeqCst);
+            }
             let a = encode_bytes(&v);
             let b = serde_json::to_vec(&v).ok();
             if a != b && diff.is_empty() {
